@@ -14,3 +14,5 @@ func (c *channel) verifLockFree() bool                       { return true }
 func (c *channel) vpWait(point string, signal chan struct{}) {}
 
 func verifYield(point string, enabled func() bool) {}
+func verifYieldAt(point string, at string)         {}
+func verifYieldCh(point string, ch Channel)        {}
